@@ -212,9 +212,16 @@ void noteConnect(World &w, const ConnectResult &r)
 }
 
 // ---------------------------------------------------------------- TCP histories
-void tcpHistory(int depth)
+// mode 0: every history of the given depth over the 16-operation alphabet.
+// mode 1 (scenario tcp_observer_orders): one connected session with four observers and a user-data cleanup; every
+// sequence of up to two unobserve calls on ANY of the four (not only the most recent), then every close cause
+// (application close, peer FIN, orderly stop) - the fan-out must visit the remaining observers in registration order.
+void tcpHistory(int depth, int mode = 0)
 {
   mc_label("main:tcp");
+  static const int observerScript[] = {0, 11, 11, 11, 11, 13, 16, 16, 17};
+  if (mode == 1)
+    depth = (int)(sizeof observerScript / sizeof observerScript[0]);
   simk_cfg.tcpRcvBuf = 2;
   simk_cfg.shortIo = false; // kernel answers are C01's business; here: lifecycle
   simk_route("127.0.0.1", 9101, SIMK_REFUSE_NOW);
@@ -246,11 +253,40 @@ void tcpHistory(int depth)
   size_t cur = 0;
   for (int step = 0; step < depth; ++step)
   {
-    int op = mc_choose(16, MC_FREE);
-    static const char *names = "krabixfRdBgouUZp";
+    int op = mode == 1 ? observerScript[step] : mc_choose(16, MC_FREE);
+    static const char *names = "krabixfRdBgouUZpvc";
     w.hist.push_back(names[op]);
+    int pick = 0;
+    if (op == 16)
+    {
+      pick = mc_choose(5, MC_FREE); // 0: leave all, k: unobserve the k-th registered observer
+      w.hist.push_back((char)('0' + pick));
+    }
+    if (op == 17)
+    {
+      static const int closers[] = {5, 6, -1};
+      op = closers[mc_choose(3, MC_FREE)];
+      w.hist.push_back(op < 0 ? 's' : names[op]);
+    }
     switch (op)
     {
+    case 16: // unobserve a chosen observer (any position in the registration order)
+      if (pick > 0 && w.obsIds.count(pick))
+      {
+        int tag = pick; // tags start at 1
+        bool ok = w.t->unobserve(w.obsIds[tag]);
+        SessionId sid = w.obsSid[tag];
+        if (ok)
+        {
+          auto &v = w.s[sid].observers;
+          v.erase(std::remove(v.begin(), v.end(), tag), v.end());
+        }
+        else
+          mc_violation("fan-out", "unobserve-of-registered-observer-failed", "unobserve() returned false for a registered observer of an open session (hist " + w.hist + ")");
+        w.obsIds.erase(tag);
+        w.obsSid.erase(tag);
+      }
+      break;
     case 0: // connect -> ok
     {
       auto r = w.t->connect("127.0.0.1", 9100, TlsMode::None);
@@ -681,6 +717,15 @@ int main(int argc, char **argv)
     m.thorough.S = 0;
     m.horizon_s = 600;
     m.weight = 3;
+    v.push_back(m);
+  }
+  {
+    McScenario m;
+    m.name = "tcp_observer_orders";
+    m.body = []() { tcpHistory(0, 1); };
+    m.quick.S = 0;
+    m.thorough.S = 0;
+    m.horizon_s = 600;
     v.push_back(m);
   }
   const char *names[] = {"race_close_vs_fin", "race_connect_vs_stop", "race_close_vs_unobserve", "race_timer_close"};
